@@ -22,6 +22,11 @@ func Clip(
 		return clipFeature(obj, clipper, opts)
 	case geojson.Collection:
 		return clipCollection(obj, clipper, opts)
+	case *geojson.Circle:
+		// clip the polygon that stands for the circle
+		if poly, ok := obj.Polygon().(*geojson.Polygon); ok {
+			return clipPolygon(poly, clipper, opts)
+		}
 	}
 	return obj
 }
